@@ -23,6 +23,7 @@ import Larking.Gen.Params
 import Larking.Gen.Dispatch
 import Larking.Model.Dispatch
 import Larking.Gen.Lexer
+import Larking.Model.FieldPath
 namespace Larking.Driver
 open Larking.Status
 
@@ -371,6 +372,22 @@ def handleParams : List String → Option String
       pure (match Param.parseEnum ns r with | some v => "ok " ++ toString v | none => "err")
   | ["parsebytes", raw] => (hexArg raw).map fun r => optHex (Param.parseBytes r)
   | ["printint", v] => v.toInt?.map fun i => toHex (Param.printInt i)
+  | ["fieldpath", table, names] => do
+      -- table: message types `m0|m1|…`, each `namehex,jsonhex,number,rep,sub;…` (sub = `-` or a type index);
+      -- the root is type 0, unfolded as deep as the selector is long; names: `hex.hex.…`
+      let tys ← (table.splitOn "|").mapM fun mt =>
+        (if mt.isEmpty || mt == "-" then some [] else (mt.splitOn ";").mapM fun f =>
+          match f.splitOn "," with
+          | [n, j, num, rep, sub] => do
+              pure ((← hexArg n), (← hexArg j), (← num.toNat?), rep == "1", (if sub == "-" then none else sub.toNat?))
+          | _ => none)
+      let ns ← (if names == "-" then some [] else (names.splitOn ".").mapM hexArg)
+      let rec unfold : Nat → Nat → FieldPath.Desc
+        | 0, _ => .mk []
+        | fuel + 1, idx => .mk ((tys.getD idx []).map fun (n, j, num, rep, sub) => (n, j, num, rep, sub.map (unfold fuel)))
+      pure (match FieldPath.fieldPath (unfold (ns.length + 1) 0).fields ns with
+        | some p => "ok " ++ ",".intercalate (p.map toString)
+        | none => "nil")
   | ["decodereq", body, query, path] => do
       let b ← parsePs body
       let q ← parsePs query
